@@ -52,6 +52,8 @@ type c15Run struct {
 	CrashAt int  `json:"killed_before_fs_operation"` // 0 = run completes
 }
 
+const c15Large = 600
+
 func c15Query(path string, r c15Run) string {
 	q := "select k,count(k) group by k outfile "
 	if r.Append {
@@ -60,6 +62,13 @@ func c15Query(path string, r c15Run) string {
 	q += path
 	if r.Rows == 2 {
 		q = "select k,count(k),sum(v) group by k order by count(k) outfile "
+		if r.Append {
+			q += "append "
+		}
+		q += path
+	}
+	if r.Rows == 3 {
+		q = "select k,sum(v) group by k order by sum(v) limit 1000 outfile "
 		if r.Append {
 			q += "append "
 		}
@@ -74,6 +83,13 @@ func c15Expected(r c15Run) (header, body string) {
 		return "k,count(k)\n", ""
 	case 1:
 		return "k,count(k)\n", "a,3\n"
+	case 3:
+		// a result larger than any 4 KiB buffer on the way: 600 groups, largest sum first
+		var sb strings.Builder
+		for i := c15Large - 1; i >= 0; i-- {
+			fmt.Fprintf(&sb, "g%03d,%d.000000\n", i, i+1)
+		}
+		return "k,sum(v)\n", sb.String()
 	default:
 		return "k,count(k),sum(v)\n", "b,2,7.000000\na,1,1.500000\n"
 	}
@@ -98,6 +114,17 @@ func c15Exec(path string, r c15Run) (ops int, killed bool, oplog []string, err e
 				s.Aggregate("count(k)", mapr.Count, "a", false)
 			}
 			s.Samples = upto
+		case 3:
+			for i := 0; i < c15Large; i++ {
+				if upto < 2 && i >= c15Large/2 {
+					break // the interim report holds half of the groups
+				}
+				k := fmt.Sprintf("g%03d", i)
+				s := g.GetSet(k)
+				s.Aggregate("k", mapr.Last, k, false)
+				s.Aggregate("sum(v)", mapr.Sum, fmt.Sprint(i+1), false)
+				s.Samples = 1
+			}
 		case 2:
 			s := g.GetSet("a")
 			s.Aggregate("k", mapr.Last, "a", false)
@@ -171,7 +198,7 @@ func c15Check(c *Ctx, maxRuns int) {
 	roots := []fsState{{absent, absent, absent, absent}, {pre, absent, "select k,count(k) group by k outfile " + path, absent}}
 	var variants []c15Run
 	for _, app := range []bool{false, true} {
-		for _, rows := range []int{1, 2, 0} {
+		for _, rows := range []int{1, 2, 0, 3} {
 			for _, in := range []int{0, 1} {
 				variants = append(variants, c15Run{Append: app, Rows: rows, Interim: in})
 			}
@@ -194,6 +221,12 @@ func c15Check(c *Ctx, maxRuns int) {
 		var next []*c15Node
 		for _, n := range frontier {
 			for _, v := range variants {
+				if c.Expired() {
+					return
+				}
+				if v.Rows == 3 && depth > 1 {
+					continue // the large result set: as the first run of a history only (cost)
+				}
 				// number of crash points of this run from this state
 				restore(n.st)
 				total, _, _, err := c15Exec(path, v)
@@ -255,7 +288,7 @@ func c15Check(c *Ctx, maxRuns int) {
 					if !seen[sk] {
 						seen[sk] = true
 						states++
-						if depth < maxRuns {
+						if depth < maxRuns && run.Rows != 3 {
 							next = append(next, &c15Node{st: after, history: hist, legit: legit, queries: queries})
 						}
 					}
@@ -359,7 +392,7 @@ func c15Oracle(before, after fsState, run c15Run, killed bool, legit, queries ma
 	return ""
 }
 
-var c15Headers = map[string]bool{"k,count(k)\n": true, "k,count(k),sum(v)\n": true}
+var c15Headers = map[string]bool{"k,sum(v)\n": true, "k,count(k)\n": true, "k,count(k),sum(v)\n": true}
 
 func c15Sig(d string) string {
 	switch {
@@ -491,7 +524,7 @@ func init() {
 	Register(&Check{
 		ID:    "C15",
 		Level: "fault_enumeration",
-		Rule: "explicit-state search over file-system states (content of outfile, outfile.tmp, .query, .query.tmp): from {nothing, a complete outfile of an earlier query} every run variant (replace/append x 3 result sets x 0/1 interim report + final report, " +
+		Rule: "explicit-state search over file-system states (content of outfile, outfile.tmp, .query, .query.tmp): from {nothing, a complete outfile of an earlier query} every run variant (replace/append x 4 result sets (empty, 1 row, 2 rows, and - as the first run of a history - 600 rows = larger than any 4 KiB buffer) x 0/1 interim report + final report, " +
 			"the call pattern of MaprClient.reportResults in cumulative mode) is executed on the real GlobalGroupSet.WriteResult over a recording file system, once to completion and once killed before EVERY mutating file-system operation " +
 			"(the file system is frozen, deferred clean-up has no effect); resulting states are de-duplicated and expanded to histories of 2 (quick) / 3 (thorough) runs; the invariant is evaluated on every state; plus: an interim and a final report of one client requested at the same moment (replace and append mode), all schedules within 2 (quick) / 3 (thorough) deviations with file-system operations as scheduling points, invariant: the outfile is never observable half-written and ends complete; non-trivial = a history containing a kill",
 		Assumptions: []string{
